@@ -37,6 +37,10 @@ type vfC05Case struct {
 	// Logged (client over TCP): "" | "logged" (traffic logger on) | "logged+data-with-eof" (traffic logger on, and the
 	// socket hands the last bytes over together with the end-of-stream error, as io.Reader allows and TLS does)
 	Logged string `json:"logged,omitempty"`
+	// ViaResume (client over TCP, no stream management): the session that receives the elements is the client's second
+	// one - the first is closed by the server right after it was established, and the application reconnects with
+	// Resume() from inside the Disconnected handler, as a StreamManager does
+	ViaResume bool `json:"via_resume,omitempty"`
 }
 
 // vfDataWithEOF makes the underlying connection report "n bytes and then the end" in one Read call whenever the end
@@ -67,7 +71,7 @@ func (d *vfDataWithEOF) Read(p []byte) (int, error) {
 	return n + n2, err2
 }
 
-var vfC05DataWithEOF, vfC05Oversize int64
+var vfC05DataWithEOF, vfC05Oversize, vfC05ViaResume int64
 
 func vfGenInbound(r *rand.Rand, n int, ns string, allowSMAnswer bool, tag string) []vfInElem {
 	var out []vfInElem
@@ -158,7 +162,12 @@ func vfC05RunClientTCP(cs *vfC05Case) vfC05Result {
 	var amu sync.Mutex
 	sentAll := make(chan struct{})
 	peer := vfNewPeer(func(pc *vfPeerConn) {
-		o := &vfNeg{SM: cs.SM, ExpectEnable: cs.SM, SMResume: []string{"true", "true", "false", ""}[int(cs.Seed)%4], ExpectPresence: true, Bind: true}
+		if cs.ViaResume && pc.N == 0 {
+			pc.Negotiate(&vfNeg{Bind: true, ExpectPresence: true})
+			pc.Close()
+			return
+		}
+		o := &vfNeg{SM: cs.SM, ExpectEnable: cs.SM, SMResume: []string{"true", "true", "false", ""}[int(cs.Seed)%4], ExpectPresence: !cs.ViaResume, Bind: true}
 		if _, err := pc.Negotiate(o); err != nil {
 			res.peerErr = err
 			close(sentAll)
@@ -280,9 +289,33 @@ func vfC05RunClientTCP(cs *vfC05Case) vfC05Result {
 		}
 	}
 	obs.catchAll(router)
+	resumed := make(chan error, 1)
+	if cs.ViaResume {
+		var once sync.Once
+		c.SetHandler(func(e Event) error {
+			obs.onEvent(e)
+			if e.State.state == StateDisconnected {
+				once.Do(func() { resumed <- c.Resume() })
+			}
+			return nil
+		})
+	}
 	if err := c.Connect(); err != nil {
 		res.connectErr = err
 		return res
+	}
+	if cs.ViaResume {
+		select {
+		case err := <-resumed:
+			if err != nil {
+				res.connectErr = err
+				return res
+			}
+		case <-time.After(20 * time.Second):
+			res.inconclusive = "resume-in-handler-watchdog"
+			return res
+		}
+		atomic.AddInt64(&vfC05ViaResume, 1)
 	}
 	want := 0
 	for _, e := range cs.Elems {
@@ -703,6 +736,7 @@ func TestVf_C05(t *testing.T) {
 	defer func() {
 		run.Count("reads_returning_data_together_with_the_end", atomic.LoadInt64(&vfC05DataWithEOF))
 		run.Count("oversized_websocket_messages_survived", atomic.LoadInt64(&vfC05Oversize))
+		run.Count("second_sessions_obtained_inside_the_handler", atomic.LoadInt64(&vfC05ViaResume))
 	}()
 	var rc vfC05Case
 	if run.ReplayCase(&rc) {
@@ -723,6 +757,7 @@ func TestVf_C05(t *testing.T) {
 			cs.SM = r.Intn(2) == 0
 			cs.End = []string{"sentinel", "sentinel", "fin", "rst"}[r.Intn(4)]
 			cs.Logged = []string{"", "logged", "logged+data-with-eof"}[r.Intn(3)]
+			cs.ViaResume = !cs.SM && cs.Logged == "" && r.Intn(2) == 0
 			cs.Gate = r.Intn(3) == 0 && cs.End != "rst" // after a reset the second stanza may never arrive
 			if cs.Gate {
 				cs.GateK = []int{1, 2, 8, 33, 40, 100}[r.Intn(6)]
